@@ -266,10 +266,15 @@ def k4(rep, F):
         return r
     body = b["body"]
     maps = {}
+    # the sequence maps are the locals that fill the slots of the returned ParsedSequences
+    slots = {}
     for n in walk(body):
-        if n.get("k") == "let" and n["pat"].get("k") == "bind" and n["pat"].get("name", "").startswith("seq_") \
-                and "HashMap" in (n.get("ty") or ""):
-            maps[n["pat"]["id"]] = n["pat"]["name"]
+        if n.get("k") == "struct" and (n.get("path") or n.get("t") or "").endswith("ParsedSequences"):
+            for f in n["fields"]:
+                v = peel(f["e"])
+                if isinstance(v, dict) and v.get("k") == "local":
+                    slots[f["name"]] = v["id"]
+                    maps[v["id"]] = v.get("oname") or v.get("name")
     if len(maps) < 3:
         rep.fail_closed("K4: the three sequence maps were not found (%s)" % sorted(maps.values()))
         return r
@@ -296,13 +301,15 @@ def k4(rep, F):
                                 b["file"], lp.get("ln")))
     # the result struct carries each map in its own slot
     for n in walk(body):
-        if n.get("k") == "struct" and (n.get("path") or "").endswith("ParsedSequences"):
+        if n.get("k") == "struct" and (n.get("path") or n.get("t") or "").endswith("ParsedSequences"):
             r["instances"] += 1
             for f in n["fields"]:
                 v = peel(f["e"])
-                nm = v.get("name") if isinstance(v, dict) else None
+                nm = (v.get("oname") or v.get("name")) if isinstance(v, dict) else None
                 want = {"sequence_a": "seq_a", "sequence_b": "seq_b", "sequence_c": "seq_c"}.get(f["name"])
-                if want and nm != want:
+                # the naming convention of the maps is the only witness of which is which; it is checked when
+                # the convention is in use and skipped otherwise
+                if want and nm and nm.startswith("seq_") and nm != want:
                     rep.add(Finding("K4", b["path"], "result:%s" % f["name"],
                                     "ParsedSequences.%s is filled from %s" % (f["name"], nm), b["file"], n.get("ln")))
     # ordering: fields are sorted by stamp before distribution
